@@ -24,6 +24,43 @@ ASSUMPTIONS = [
 ]
 
 
+def check_average_reward(s, rule="C19.5"):
+    """average_reward == mean over vmap(episode)(jr.split(key, num_episodes)); each episode helper gets ITS episode key."""
+    envp, polp = ("param", "env"), ("param", "policy")
+    con8 = "lerax.benchmark.average_reward"
+    m8, f8 = s.function("lerax.benchmark", "average_reward")
+    loc8 = s.prog.loc(m8, f8)
+    b8 = s.builder(inline=set())
+    nz8 = Normalizer(b8)
+    kinds = set()
+    for p8 in live(s.fpaths(b8, "lerax.benchmark", "average_reward")):
+        ret = p8.ret
+        ok = isinstance(ret, tuple) and ret[0] == "call" and ret[1] == ("global", "jax.numpy.mean") and len(ret[2]) == 1
+        vm = ret[2][0] if ok else None
+        ok = ok and isinstance(vm, tuple) and vm[0] == "call" and isinstance(vm[1], tuple) and vm[1][0] == "vmapfn" and isinstance(vm[1][1], Closure)
+        s.ob(rule, con8, ok, "average_reward == mean(vmap(episode)(keys))", loc8, key="mean-of-vmap", detail=show(ret, maxlen=160),
+             necessary_for="the mean undiscounted return of the requested number of independent episodes")
+        if not ok:
+            continue
+        want = s.ref(b8, "jr.split(key, num_episodes)", {"key": ("param", "key"), "num_episodes": ("param", "num_episodes")})
+        s.ob(rule, con8, len(vm[2]) == 1 and nz8.canon(vm[2][0]) == nz8.canon(want), "episodes use jr.split(key, num_episodes): one independent key each", loc8,
+             key="episode-keys", detail=show(vm[2], maxlen=120))
+        for ep in b8.apply_paths(vm[1][1], (("param", "$k"),)):
+            r = ep.ret
+            nm = r[1][1].rsplit(".", 1)[-1] if isinstance(r, tuple) and r[0] == "call" and isinstance(r[1], tuple) and r[1][0] == "global" else None
+            kinds.add(nm)
+            if nm in ("rollout_while", "rollout_scan"):
+                _, fn_r = s.function("lerax.benchmark", nm)
+                m = bind_args(fn_r, r[2], r[3], skip_first=False)
+                okr = (m.get("env") == envp and m.get("policy") == polp and m.get("key") == ("param", "$k")
+                       and m.get("deterministic") == ("param", "deterministic")
+                       and (nm == "rollout_while" or m.get("max_steps") == ("param", "max_steps")))
+                s.ob(rule, con8 + f"[{nm}]", okr, "the episode helper receives (env, policy, key=episode key, deterministic, max_steps)", loc8,
+                     key="episode-args", detail=show(r, maxlen=200))
+    if kinds != {"rollout_while", "rollout_scan"}:
+        raise AnalysisError(f"{con8}: expected both helpers to be reachable, got {kinds}")
+
+
 def check(s):
     self_ = ("param", "self")
     # ---------------------------------------------------------------- C19.1
@@ -262,37 +299,8 @@ cum1 = cum + env.reward(s, pa[1], s1, key=K)
             s.eq("C19.5", con7 + f"[deterministic={det}]", nz6, b6.item(out, 0), ref["s1"], "the carried state is the successor", loc7, key="while-state")
     if seen != {True, False}:
         raise AnalysisError(f"{con7}: expected deterministic and stochastic cases")
-    con8 = "lerax.benchmark.average_reward"
-    m8, f8 = s.function("lerax.benchmark", "average_reward")
-    loc8 = s.prog.loc(m8, f8)
-    b8 = s.builder(inline=set())
-    nz8 = Normalizer(b8)
-    kinds = set()
-    for p8 in live(s.fpaths(b8, "lerax.benchmark", "average_reward")):
-        ret = p8.ret
-        ok = isinstance(ret, tuple) and ret[0] == "call" and ret[1] == ("global", "jax.numpy.mean") and len(ret[2]) == 1
-        vm = ret[2][0] if ok else None
-        ok = ok and isinstance(vm, tuple) and vm[0] == "call" and isinstance(vm[1], tuple) and vm[1][0] == "vmapfn" and isinstance(vm[1][1], Closure)
-        s.ob("C19.5", con8, ok, "average_reward == mean(vmap(episode)(keys))", loc8, key="mean-of-vmap", detail=show(ret, maxlen=160),
-             necessary_for="the mean undiscounted return of the requested number of independent episodes")
-        if not ok:
-            continue
-        want = s.ref(b8, "jr.split(key, num_episodes)", {"key": ("param", "key"), "num_episodes": ("param", "num_episodes")})
-        s.ob("C19.5", con8, len(vm[2]) == 1 and nz8.canon(vm[2][0]) == nz8.canon(want), "episodes use jr.split(key, num_episodes): one independent key each", loc8,
-             key="episode-keys", detail=show(vm[2], maxlen=120))
-        for ep in b8.apply_paths(vm[1][1], (("param", "$k"),)):
-            r = ep.ret
-            nm = r[1][1].rsplit(".", 1)[-1] if isinstance(r, tuple) and r[0] == "call" and isinstance(r[1], tuple) and r[1][0] == "global" else None
-            kinds.add(nm)
-            if nm in ("rollout_while", "rollout_scan"):
-                _, fn_r = s.function("lerax.benchmark", nm)
-                m = bind_args(fn_r, r[2], r[3], skip_first=False)
-                okr = (m.get("env") == envp and m.get("policy") == polp and m.get("key") == ("param", "$k")
-                       and m.get("deterministic") == ("param", "deterministic")
-                       and (nm == "rollout_while" or m.get("max_steps") == ("param", "max_steps")))
-                s.ob("C19.5", con8 + f"[{nm}]", okr, "the episode helper receives (env, policy, key=episode key, deterministic, max_steps)", loc8,
-                     key="episode-args", detail=show(r, maxlen=200))
-    if kinds != {"rollout_while", "rollout_scan"}:
-        raise AnalysisError(f"{con8}: expected both helpers to be reachable, got {kinds}")
+    check_average_reward(s)
+    from .util import no_late_binding
+    no_late_binding(s, "C19.4", ("lerax.callback", "lerax.benchmark"), necessary_for="every record reaches the backend it was meant for (a helper defined in the backend loop must not read the loop variable late)")
     for r_, n in (("C19.1", 8), ("C19.2", 4), ("C19.3", 16), ("C19.4", 6), ("C19.5", 20)):
         s.floor(r_, n)
